@@ -32,7 +32,7 @@ var c14P1, c14P2 = func() (a, b [64]color.RGBA) {
 		a[i] = color.RGBA{u * 4, 255 - u*3, u, 0xff}
 		b[i] = color.RGBA{u, u / 2, u / 4, 0x80 + u}
 	}
-	b[1] = color.RGBA{0x90, 0, 0, 0x10}       // invalid
+	b[1] = color.RGBA{0x90, 0, 0, 0x10}        // invalid
 	b[63] = color.RGBA{0x02, 0x4a, 0x8a, 0x00} // gradient-looking
 	a[0] = color.RGBA{0, 0, 0, 0}              // transparent: switches paths off
 	return
@@ -140,9 +140,9 @@ type c14Case struct {
 
 func c14Depth(tier string) int {
 	if tier == "thorough" {
-		return 4
+		return 5
 	}
-	return 3
+	return 4
 }
 
 func init() {
@@ -150,7 +150,7 @@ func init() {
 	mc.Register(&mc.Check{
 		ID:    "C14",
 		Level: "model_checking",
-		Rule: fmt.Sprintf("engine S over option lists: every list of <=3 (thorough <=4) options over a %d-option alphabet (WithPalette of two palettes incl. invalid, gradient-looking and transparent entries; WithColorAt for indices {0,1,63} x 7 colour values: opaque RGBA, translucent NRGBA, Gray, RGBA64, a custom color.Color reporting r>a, invalid premultiplied RGBA, gradient-looking RGBA) x 4 graphics (palette indices in registers, blends with palette operands, paths filled from the initial colour registers with number registers preset so that a reinterpretation as gradient would be valid, suggested palette in the metadata) x sinks {recorder, Renderer over a recording rasteriser}. ", no) +
+		Rule: fmt.Sprintf("engine S over option lists: every list of <=4 (thorough <=5) options over a %d-option alphabet (WithPalette of two palettes incl. invalid, gradient-looking and transparent entries; WithColorAt for indices {0,1,63} x 7 colour values: opaque RGBA, translucent NRGBA, Gray, RGBA64, a custom color.Color reporting r>a, invalid premultiplied RGBA, gradient-looking RGBA) x 4 graphics (palette indices in registers, blends with palette operands, paths filled from the initial colour registers with number registers preset so that a reinterpretation as gradient would be valid, suggested palette in the metadata) x sinks {recorder, Renderer over a recording rasteriser}. ", no) +
 			"Reference: suggested palette, options applied in order (colour model conversion to premultiplied RGBA), then every entry that is not a valid premultiplied colour replaced by opaque black; the Reset palette and every paint must equal the reference VM's; bytes, palette arrays and option colours unmodified. " +
 			"states = option lists executed, transitions = options applied; non-trivial = list containing an invalid or gradient-looking user colour",
 		Assumptions: []string{"WithColorAt with an index outside 0..63 is a caller error outside the quantifier"},
